@@ -456,3 +456,11 @@ Proof.
   unfold vis_flags_weights, correct_autocorr, scale_weights. rewrite E.
   destruct vv; [reflexivity |]. destruct scaled; reflexivity.
 Qed.
+
+(* vanvleck_only_real_autos, spelled out *)
+Lemma spec_vv_cross : forall table cps vis t f b, is_auto (cp_at cps b) = false ->
+  spec_vv table cps vis t f b = get3 vis cx_nan t f b.
+Proof. intros. unfold spec_vv. fold (cp_at cps b). now rewrite H. Qed.
+Lemma spec_vv_auto : forall table cps vis t f b, is_auto (cp_at cps b) = true ->
+  spec_vv table cps vis t f b = (vv_interp table (fst (get3 vis cx_nan t f b)), Fin 0).
+Proof. intros. unfold spec_vv. fold (cp_at cps b). now rewrite H. Qed.
